@@ -15,6 +15,7 @@ import (
 	abci "github.com/cometbft/cometbft/abci/types"
 	"github.com/cosmos/cosmos-sdk/codec"
 	sdk "github.com/cosmos/cosmos-sdk/types"
+	txtypes "github.com/cosmos/cosmos-sdk/types/tx"
 	gogoproto "github.com/cosmos/gogoproto/proto"
 
 	"verifharness/chain"
@@ -256,9 +257,9 @@ func (e *Engine) ExecBytes(bz []byte, tag string) *TxRec {
 		var md sdk.TxMsgData
 		if err := gogoproto.Unmarshal(rec.Res.Data, &md); err == nil {
 			for _, any := range md.MsgResponses {
-				var pm gogoproto.Message
+				var pm txtypes.MsgResponse
 				if err := e.App.IR.UnpackAny(any, &pm); err == nil {
-					rec.Resps = append(rec.Resps, pm)
+					rec.Resps = append(rec.Resps, pm.(gogoproto.Message))
 				} else {
 					rec.Resps = append(rec.Resps, nil)
 				}
